@@ -1,7 +1,7 @@
 /-
 Model of `paroxython/preprocess_source.py :: Cleanup` (C13). Core Lean only.
 
-Texts are `List Char`. The six fixed regexes of the class are re-expressed as structural functions
+Texts are `List Char`. The fixed regexes of the class are re-expressed as structural functions
 (treatment R2 of DESIGN §3); their agreement with the real `regex` engine is *validated* by the
 token-level bounded-exhaustive streams of harness/c13.py, not proved.
 
@@ -138,34 +138,57 @@ def suppressMainGuard (ifs : Option (List IfStmt)) (t : Text) : Text :=
   | none => t
   | some rs => joinNl (dropGuards (splitNl t) rs.reverse)
 
-/-! ### 3. `suppress_sys_path_injection` : `(?m)^__import__\("sys"\)\.path\[0:0\] = .+\n?` ↦ "" -/
+/-! ### 3. `suppress_sys_path_injection` : the top-level statements at column 0 whose FIRST LINE starts
+with `__import__("sys").path[0:0] = ` followed by at least one character, with ALL their lines
+(repair F50: the statements are delimited by the PARSER, as in `suppress_main_guard`; the former regex
+`(?m)^__import__\("sys"\)\.path\[0:0\] = .+\n?` deleted the first physical line only) -/
 
 def sysPathPrefix : Text := "__import__(\"sys\").path[0:0] = ".toList
 
+/-- `regex.compile(r'__import__\("sys"\)\.path\[0:0\] = .').match(line)` on a line (no newline in it). -/
 def isInjection (l : Line) : Bool :=
   match dropPrefix? sysPathPrefix l with
   | some r => !r.isEmpty
   | none => false
 
-/-- Drop the injection lines. A line followed by a newline goes with its newline; the last element of
-the split (no newline after it) is emptied, the newline before it stays. -/
-def dropInjections : List Line → List Line
-  | [] => []
-  | [l] => if isInjection l then [[]] else [l]
-  | l :: m :: rest =>
-    if isInjection l then dropInjections (m :: rest) else l :: dropInjections (m :: rest)
+/-- A top-level statement as the parser reports it: `lineno`, `end_lineno`, `col_offset == 0`. -/
+structure Stmt where
+  lineno : Nat
+  endLineno : Nat
+  col0 : Bool
+  deriving DecidableEq, Repr, Inhabited
 
-def suppressSysPath (t : Text) : Text := joinNl (dropInjections (splitNl t))
+/-- `node.col_offset == 0 and match(lines[node.lineno - 1])`, on the CURRENT list of lines.
+(A `lineno` beyond the list — the parser and `split("\n")` count the lines differently after a lone
+`\r` or `\f\r` — raises IndexError in the code; here it is "no match": see the assumptions of C13.) -/
+def stmtIsInjection (ls : List Line) (s : Stmt) : Bool :=
+  s.col0 && isInjection (ls.getD (s.lineno - 1) [])
+
+/-- The loop `for node in reversed(statements)`: the statements IN THE ORDER THE LOOP VISITS THEM. -/
+def dropInjectionStmts (ls : List Line) : List Stmt → List Line
+  | [] => ls
+  | s :: rest =>
+    dropInjectionStmts (if stmtIsInjection ls s then delRange ls s.lineno s.endLineno else ls) rest
+
+/-- `suppress_sys_path_injection`. The parser is an oracle: `none` when `ast.parse` raises SyntaxError
+or ValueError, else ALL the top-level statements in source order. -/
+def suppressSysPath (stmts : Option (List Stmt)) (t : Text) : Text :=
+  match stmts with
+  | none => t
+  | some ss => joinNl (dropInjectionStmts (splitNl t) ss.reverse)
 
 /-! ### 4. `text.replace("\t", "    ")` -/
 
 def expandTabs (t : Text) : Text := t.flatMap fun c => if c = '\t' then "    ".toList else [c]
 
 /-- The three text passes and the tab expansion that precede the tokenizer. `parse` is the parser
-oracle, asked about the text that `suppress_first_comments` returns. -/
-def preprocess (parse : Text → Option (List IfStmt)) (t : Text) : Text :=
+oracle of `suppress_main_guard`, asked about the text that `suppress_first_comments` returns;
+`parseStmts` the one of `suppress_sys_path_injection`, asked about the text without its guards. -/
+def preprocess (parse : Text → Option (List IfStmt)) (parseStmts : Text → Option (List Stmt))
+    (t : Text) : Text :=
   let t1 := suppressFirstComments t
-  expandTabs (suppressSysPath (suppressMainGuard (parse t1) t1))
+  let t2 := suppressMainGuard (parse t1) t1
+  expandTabs (suppressSysPath (parseStmts t2) t2)
 
 /-! ### 5. `normalize_paroxython_comments` : `(?i)#\s*paroxython\s*:\s*` ↦ "# paroxython: ", counted -/
 
@@ -389,8 +412,9 @@ def postprocess (ts : List Token) : Text := finish (loopText ts)
 /-- `Cleanup.full_cleaning`, the parser and the tokenizer being parameters; the tokenizer may raise
 (all tokens are produced before the loop starts), the loop itself cannot. -/
 def fullCleaning {ε : Type} (parse : Text → Option (List IfStmt))
+    (parseStmts : Text → Option (List Stmt))
     (tokenize : Text → Except ε (List Token)) (src : Text) : Except ε Text :=
-  match tokenize (preprocess parse src) with
+  match tokenize (preprocess parse parseStmts src) with
   | .error e => .error e
   | .ok ts => .ok (postprocess ts)
 
